@@ -64,6 +64,12 @@ def build_corpus(tier, rng):
             if i % 5 == 3 and rot:
                 vs.append(Variant("Off%d" % i, "unit", [], [DISABLED, props(list(kv))] if kv else [DISABLED]))    # only a disabled variant in between
         items.append(("neighbour-tables", Item("E", vs)))
+    # the enum comes out of a macro_rules! expansion, its NAME and the variant names handed in as `ident` fragments, the values as `expr` / `literal`
+    for mode in (True, "idents"):
+        mm = Item("E", [Variant("Left", "unit", [], [props([("side", ("s", "l")), ("n", ("i", 1))])]), Variant("Spare", "tuple", [Field("u8")], [DISABLED, props([("side", ("s", "x"))])]),
+                        Variant("Right", "named", [Field("i32", "x")], [props([("side", ("s", "r")), ("ok", ("b", True))])]), Variant("Bare", "unit")])
+        mm.via_macro = mode
+        items.append(("via-macro", mm))
     for _ in range(500 if thorough else 70):
         n = rng.randint(1, 8)
         vs = []
